@@ -60,7 +60,7 @@ func c03Readable(out [][]byte, text []byte) string {
 	return ""
 }
 
-// id: "<polA>-<polB>/f<frag>/U<n>/<full|lean>"
+// id: "<polA>-<polB>/f<frag>/U<n>/<full|lean|est>"
 func verifC03Sys(id string, seed int64) *verifSys {
 	parts := strings.Split(id, "/")
 	if len(parts) != 4 {
@@ -80,6 +80,17 @@ func verifC03Sys(id string, seed int64) *verifSys {
 			m.NSMP, m.NKey, m.NTick = 1, 1, 1
 		}
 		w.Mon = m
+		if parts[3] == "est" {
+			// start from an established session (histories like: peer ends, new exchange starts, Send before it completes)
+			w.Q[1] = append(w.Q[1], w.P[0].Query())
+			if !w.deliverAll(40, nil) || !w.P[0].C.IsEncrypted() || !w.P[1].C.IsEncrypted() {
+				panic("verif: C03 setup failed for " + id)
+			}
+			verifTick(w.P[0].C)
+			verifTick(w.P[1].C)
+			w.P[0].Rec.take()
+			w.P[1].Rec.take()
+		}
 		return w
 	}
 	sys.Evs = func(w *verifWorld) []verifEv {
@@ -287,6 +298,7 @@ func init() {
 					}
 					ids = append(ids, fmt.Sprintf("%s-%s/f%d/U3/%s", pol, peer, f, kind))
 				}
+				ids = append(ids, "3-3/f0/U3/est", "3e-3r/f0/U3/est", "2w-2/f80/U3/est")
 			} else {
 				for m := 0; m < 16; m++ {
 					f := ""
@@ -299,7 +311,7 @@ func init() {
 						ids = append(ids, fmt.Sprintf("3%s-%s/f%d/U4/%s", f, peer, []int{0, 80}[(m+pi)%2], []string{"lean", "full"}[(m+pi)%2]))
 					}
 				}
-				ids = append(ids, "2r-2/f0/U4/full", "2rw-23ws/f80/U4/lean", "23re-23/f0/U4/full")
+				ids = append(ids, "2r-2/f0/U4/full", "2rw-23ws/f80/U4/lean", "23re-23/f0/U4/full", "3-3/f0/U4/est", "3e-3r/f0/U4/est", "2w-2/f80/U4/est", "3rws-3e/f0/U4/est")
 			}
 			for _, id := range ids {
 				r.explore(verifC03Sys(id, r.Seed))
